@@ -294,7 +294,7 @@ func TestVerifC03ClientRun(t *testing.T) {
 		}
 		queued := 0
 		steps := 150 + rng.Intn(150)
-		for s := 0; s < steps; s++ {
+		for s := 0; s < steps && !r.Dead(entry); s++ {
 			var d []byte
 			if rng.Intn(6) == 0 {
 				d = vfC03Fill(rng, rng.Intn(4), s%65)
